@@ -54,6 +54,7 @@ def proj(children):
 
 
 def run(ctx: Ctx) -> None:
+    from markdown_it.common.utils import unescapeAll
     from markdown_it import MarkdownIt
     from markdown_it.utils import OptionsDict
 
@@ -156,6 +157,44 @@ def run(ctx: Ctx) -> None:
                     ctx.fail("ropts-not-local", f"renderer options (xhtmlOut, breaks, langPrefix)={c} changed the HTML outside their documented place",
                              {"input": src, "preset": pname, "options": list(c), "got": h[:400], "want": want[:400]})
                     break
+    # ---- (3b) highlight: called for fenced blocks only, with (content, first info word, rest of info); a callback that returns a
+    # falsy value leaves the HTML as it is without a callback; documents without a fence are never handed to it
+    for pname in ("commonmark", "js-default"):
+        basemd = MarkdownIt(pname)
+        for src in docs[: (400 if quick else 6000)] + ["para\n\n    indented <code>\n\n- item\n\n      nested indented\n", "    a\n\n```x y z\nf\n```\n\n\tb\n"]:
+            calls = []
+
+            def hl(content, lang, attrs, _c=calls):
+                _c.append((content, lang, attrs))
+                return ""
+            try:
+                toks = basemd.parse(src)
+                h0 = basemd.render(src)
+                h1 = MarkdownIt(pname, {"highlight": hl}).render(src)
+            except Exception:
+                continue
+            fences = [t for t in toks if t.type == "fence"]
+            nested = []
+
+            def walk(ts):
+                for t in ts:
+                    if t.type == "fence":
+                        nested.append(t)
+            walk(toks)
+            want_calls = []
+            for t in nested:
+                info = unescapeAll(t.info).strip() if t.info else ""
+                parts = info.split(maxsplit=1) if info else []
+                want_calls.append((t.content, parts[0] if parts else "", parts[1] if len(parts) > 1 else ""))
+            ctx.count((src, pname, "highlight"), nontrivial=bool(fences) or "    " in src)
+            if h1 != h0:
+                ctx.fail("highlight-not-local", "a highlight callback that returns nothing changed the HTML",
+                         {"input": src, "preset": pname, "got": h1[:400], "want": h0[:400]})
+                break
+            if calls != want_calls:
+                ctx.fail("highlight-not-local", "the highlight callback is not called exactly once per fenced block with (content, language, attributes)",
+                         {"input": src, "preset": pname, "calls": [list(c) for c in calls][:6], "fences": [list(c) for c in want_calls][:6]})
+                break
     # ---- tie: option keys read by the parser
     reads = set()
 
